@@ -47,6 +47,8 @@ def build_exec(scn, sevm, solver):
         ca = con_addr(a)
         code[ca] = Contract(bytes(acc["code"]))
         storage[ca] = sevm.mk_storagedata()
+        if scn.get("symbolic_storage"):
+            storage[ca].symbolic = True      # what svm.enableSymbolicStorage(addr) does
         transient[ca] = sevm.mk_storagedata()
     segs = []
     for seg in scn["calldata"]:
@@ -178,6 +180,16 @@ class PathRecord:
         env = {CALLER_NAME: inp["caller"], ORIGIN_NAME: inp["origin"], VALUE_NAME: inp["value"],
                BALANCE_NAME: (dict(inp.get("balances", {})), 0)}
         env.update(inp.get("args", {}))
+        # initial contents of symbolic storage: halmos' names for the initial scalar words and one-level mappings
+        for a, sc in (inp.get("init_scalars") or {}).items():
+            for slot, v in sc.items():
+                env[f"storage_0x{a:040x}_{slot}_0_0_00"] = v
+        for a, entries in (inp.get("init_maps") or {}).items():
+            by_slot = {}
+            for slot, key, v in entries:
+                by_slot.setdefault(slot, {})[key] = v
+            for slot, d in by_slot.items():
+                env[f"storage_0x{a:040x}_{slot}_1_256_00"] = (d, 0)
         ev = zeval.Evaluator(env)
         return ev
 
